@@ -18,7 +18,7 @@ PLAN = dict(
                     "the executable property on the RUST output: run_fun(checked program) vs run_core(Rust Core program) on "
                     "every tuple whose source run ends normally within the fuel -> VIOL class="
                     "call-to-main (known finding: main has no return continuation, calls of main pass one) | "
-                    "mistyped-goto-unbound (repaired by 126604b; a recurrence is a violation) | capture-under-binder (repaired by <commitcap>: a continuation "
+                    "mistyped-goto-unbound (repaired by 126604b; a recurrence is a violation) | capture-under-binder (repaired by d5d4151: a continuation "
                     "that mentions a name is kept outside of a let / pattern binder of that name; a recurrence is a violation) | semantic-mismatch; mismatches of programs outside the precondition "
                     "(effects in argument positions) are SKIPped.  Theorems: fresh names for fresh_name and for the whole "
                     "translation (all term forms), structural lemmas, the call-to-main witness refuting the unguarded and the "
@@ -26,7 +26,7 @@ PLAN = dict(
                     "(and, now inside the guard, simulated by the theorem), and SEMANTIC PRESERVATION for all term forms incl. codata "
                     "(C02_fun2core_correct_fragment2: step-indexed forward simulation CEK vs Core machine; any number of definitions, calls, "
                     "recursion, shared continuations, data/case, labels/goto, new/destructors/by-name bindings; guard: scope check + kind discipline, "
-                    "NO capture guard since fix <commitcap> - shadowing binders are allowed; excluded: calls of main, destructor calls whose scrutinee and arguments both need evaluation); inputs inside "
+                    "NO capture guard since fix d5d4151 - shadowing binders are allowed; excluded: calls of main, destructor calls whose scrutinee and arguments both need evaluation); inputs inside "
                     "the theorem's hypotheses carry the tag proved-fragment2 (others out-frag/out-kind/out-scope); outside them preservation rests on the correspondence + "
                     "this executable check (see level_note)",
         assumptions=["the reference semantics Sem/FunSem.v and Sem/CoreSem.v are the intended meaning of Fun and Core "
